@@ -27,7 +27,7 @@ var properties = map[string]*propDef{
 		NotDecided:  "that the control flow of Degree.simpleSemitone implements the algorithm whose tables and tuples were extracted (the search loop itself is not proved); uint8 wrap-around outside the MIDI range (excluded by the property's premise); everything inside gomidi.",
 	},
 	"C02": {
-		Rules:       []string{"TICKS", "PENDING", "NOTE", "PLAYLOOP", "OPMAP", "TRACKADD", "TRACKCOUNT"},
+		Rules:       []string{"TICKS", "PENDING", "NOTE", "PLAYLOOP", "OPMAP", "TRACKADD", "TRACKCOUNT", "CODEC"},
 		Technique:   techPath + ": rounding idiom, pending-delta typestate of every emitter, on/off loop structure; the MIDI writer on a scripted history per track count and `crd write` from the instances to the tracks decided by " + techFold,
 		Explanation: "ticks = uint32(Round(quarterTicks x value)) by shape, quarterTicks and the header division both derived from the constructor's clock, the value is the sum over all duration fractions starting at 0; every emitting method consumes the pending delta exactly once before its first emission and gives later ops 0 or newTicks(value); Rest only accumulates; Close carries the pending rest; all note-ons of a chord precede all its note-offs, the first op of each phase carries the time; each op hands its own delta to gomidi; instances are visited in order.",
 		NotDecided:  "floating-point error of the sum of Num/Denom against exact rationals (needs values); absence of uint32 overflow (excluded below 2^28 by the quantifier); gomidi's delta encoding.",
@@ -69,7 +69,7 @@ var properties = map[string]*propDef{
 		NotDecided:  "header bytes, chunk lengths, variable-length quantities and data-byte masking: gomidi, trusted.",
 	},
 	"C09": {
-		Rules:       []string{"EXIT", "EOFPRED", "NILOK", "VALIDATE", "REJECT", "MUST", "RECUR", "ERRDROP", "ERRFLOW", "FLAGS", "NARROW", "LOOKUP", "DEBUGOUT", "PLAYLOOP", "APPLY", "CONC", "SELECT", "SCALEWIRE", "CLASSIFY", "PARSEERR", "TAB-REGEX", "CIRCLEWIRE", "WIRE", "CODEC"},
+		Rules:       []string{"EXIT", "EOFPRED", "NILOK", "VALIDATE", "REJECT", "MUST", "RECUR", "ERRDROP", "ERRFLOW", "FLAGS", "NARROW", "LOOKUP", "DEBUGOUT", "PLAYLOOP", "APPLY", "CONC", "SELECT", "SCALEWIRE", "CLASSIFY", "PARSEERR", "TAB-REGEX", "CIRCLEWIRE", "WIRE", "CODEC", "BASE10"},
 		Technique:   "inventory and path rules over every site of a failure class: exit status, loop predicates at EOF, decode-without-validate, (nil,true) lookups, panicking wrappers on untrusted data, recursion cycles, dropped errors",
 		Explanation: "seven failure classes, each for every site in the program: a failed Execute reaches os.Exit(non-zero); every NextWhile/DiscardWhile predicate folds to false at EOF; every decoder/constructor of a validated type validates before returning nil and each validator refuses the documented nonsense (0 durations, tempo 0, unknown dynamic, no durations); no lookup returns (nil, true); every function that can panic is in a reviewed inventory and every call site of a Must* wrapper is an initialiser, constant, or reviewed with a checked invariant; every call-graph cycle and condition-only loop has a reviewed termination measure (cyclic `extends` is rejected by validate, checked structurally); no error of a repo function or of yaml/io/os decoding is discarded; unknown chords, unknown keys, mixed notation and syntax errors are errors before anything is produced.",
 		NotDecided:  "absence of implicit run-time panics in general (index, nil, division); `promptly` as a quantitative statement; the behaviour of cobra / yaml.v3 on malformed flags or YAML.",
@@ -147,7 +147,8 @@ var wireScope = map[string][]string{
 // otherScope: scopes of other shared rules, property -> rule -> construct-key patterns (prefix, or *substring).
 var otherScope = map[string]map[string][]string{
 	// the 4-byte limit of a delta time is a matter of file well-formedness (C08); C02 is stated below 2^28 ticks
-	"C02": {"TRACKCOUNT": {"!midix|delta"}},
+	// a duration written in the document is the duration played: the decoders of the fractions
+	"C02": {"TRACKCOUNT": {"!midix|delta"}, "CODEC": {"util.Rat", "note.Value", "decode|util.Rat", "decode|note.Value"}},
 	// a track's clock must hold any piece's length: the integer types ticks are kept in (NARROW)
 	"C06": {"TRACKCOUNT": {"!midix|delta"}, "OPMAP": {"midix.Close.Call", "midix.MIDIWriter.Close", "midix.TrackOp.Call", "midix.Track.Apply"}, "NARROW": {"*Ticks", "*uint16", "*int32", "*int16"}},
 	// a log line or any other print on stdout lands in front of the MIDI bytes when the file goes to stdout
@@ -165,7 +166,7 @@ var otherScope = map[string]map[string][]string{
 	"C15": {"SCHEMA": {"producer|gen attr"}},
 	// an unknown conversion letter anywhere in a chain is refused
 	// ... and a decoder does not succeed without having kept what the document says
-	"C09": {"CIRCLEWIRE": {"op.KeyConversionChain.Convert"}, "CODEC": {"*|keeps"}},
+	"C09": {"CIRCLEWIRE": {"op.KeyConversionChain.Convert"}, "CODEC": {"*|keeps"}, "BASE10": {"util.ParseUint|decimal"}},
 	// playable in every key: the key signature event is written for every key that has a scale
 	"C17": {"OPT": {"play.midiArgs.writeWhenUpdated|key"}, "PLAYLOOP": {"play|pipeline"}, "CLASSIFY": {"astconv.ASTTypeClassifier.degreeType|domain"}},
 	// the texts of an instance are its own: the converters keep nothing between instances
